@@ -191,12 +191,21 @@ def walk(buf, base=0, depth=0, out=None):
     return out
 
 
-def primitive_overrun(buf):
-    """Independent of PyKMIP: the first primitive item (document order) with a standard/extension tag whose declared
-    value (plus padding) does not fit into what is left of its enclosing structure, as (offset, type, declared length,
-    bytes left) - or None.  Such a request cannot be decoded under any reading: the bytes of the value are not there.
-    Not reported: structures that overrun their container (PyKMIP reads 'up to the end of the container', every field is
-    still present; upstream's own test vectors carry such lengths) and Booleans, whose length field PyKMIP ignores."""
+FIXED_LEN = {2: 4, 3: 8, 5: 4, 9: 8, 10: 4}      # Integer, Long Integer, Enumeration, Date-Time, Interval
+
+
+def primitive_overrun(buf, values=True):
+    """Independent of PyKMIP (own walk over the TTLV tree, rules from KMIP 1.x section 9.1): the first primitive item
+    (document order, standard/extension tag) that no reader can decode, as (offset, type, declared length, bytes left,
+    rule) - or None.  Rules:
+      overrun   the declared value (plus padding) does not fit into what is left of the enclosing structure
+      length    Integer/Enumeration/Interval not 4 bytes, Long Integer/Date-Time not 8, Big Integer not a positive multiple of 8
+      padding   a padding byte is not zero
+      boolean   a Boolean whose 8 bytes are neither 0 nor 1
+      utf-8     a Text String whose bytes are not valid UTF-8 (judged by CPython's strict decoder, in this oracle only)
+    (the last three only with values=True).  Not reported: structures that overrun their container (PyKMIP reads 'up
+    to the end of the container', every field is still present; upstream's own test vectors carry such lengths) and the
+    Boolean LENGTH field, which PyKMIP ignores."""
     def go(pos, end, depth=0):
         while end - pos >= 8 and depth < 100:
             typ = buf[pos + 3]
@@ -209,15 +218,62 @@ def primitive_overrun(buf):
                     return r
                 if not fits:
                     return None                      # lenient reading: the structure ends with its container
-            elif not fits:
-                if buf[pos] in (0x42, 0x54) and 2 <= typ <= 10 and not (typ == 6 and end - pos - 8 >= 8):
-                    return (pos, typ, ln, end - pos - 8)
-                return None
+            else:
+                known = buf[pos] in (0x42, 0x54) and 2 <= typ <= 10
+                left = end - pos - 8
+                if not fits:
+                    if known and not (typ == 6 and left >= 8):
+                        return (pos, typ, ln, left, 'overrun')
+                    return None
+                if known:
+                    if typ in FIXED_LEN and ln != FIXED_LEN[typ] or typ == 4 and (ln == 0 or ln % 8):
+                        return (pos, typ, ln, left, 'length')
+                    if values:
+                        body = buf[pos + 8:pos + 8 + ln]
+                        if typ != 6 and any(buf[pos + 8 + ln:pos + 8 + padded]):
+                            return (pos, typ, ln, left, 'padding')
+                        if typ == 6 and int.from_bytes(buf[pos + 8:pos + 16], 'big') not in (0, 1):
+                            return (pos, typ, ln, left, 'boolean')
+                        if typ == 7:
+                            try:
+                                bytes(body).decode('utf-8')
+                            except UnicodeDecodeError:
+                                return (pos, typ, ln, left, 'utf-8')
             pos += 8 + padded
         return None
     if len(buf) < 8 or buf[3] != 1:
         return None
     return go(8, len(buf))
+
+
+BAD_UTF8 = [b'\xff', b'\xfe', b'\x80', b'\xbf', b'\xc3', b'\xc0\xaf', b'\xed\xa0\x80', b'\xf8', b'\xe2\x82', b'\xf4\x90\x80\x80']
+
+
+def value_corruptions(b):
+    """The structure stays intact (all tags, types, lengths, padding right); single VALUE bytes are replaced so that
+    the primitive breaks a rule of its type: text strings get bytes that are not UTF-8 (0xFF/0xFE, a stray continuation
+    byte, a lead byte without continuation at the end, an overlong form, a surrogate, a 5-byte lead, a code point above
+    U+10FFFF), Booleans get the value 2 / 2^63, padding gets a non-zero byte."""
+    out = []
+    for off, tag, typ, ln, d in walk(b):
+        if off == 0:
+            continue
+        v0 = off + 8
+        if typ == 7 and ln >= 1:
+            for bad in BAD_UTF8:
+                if len(bad) <= ln:
+                    for at in sorted({0, ln - len(bad), (ln - len(bad)) // 2}):
+                        if bad in (b'\xc3', b'\xe2\x82') and at != ln - len(bad):
+                            continue                  # a lead byte is only certainly wrong when nothing can follow it
+                        out.append(('badutf8', b[:v0 + at] + bad + b[v0 + at + len(bad):]))
+        if typ == 6:
+            out.append(('badbool', b[:v0] + b'\x00' * 7 + b'\x02' + b[v0 + 8:]))
+            out.append(('badbool', b[:v0] + b'\x80' + b'\x00' * 7 + b[v0 + 8:]))
+        if typ in (2, 5, 10):
+            out.append(('badpad', b[:v0 + 7] + b'\x01' + b[v0 + 8:]))
+        if typ in (7, 8) and ln % 8:
+            out.append(('badpad', b[:v0 + ln] + b'\x07' + b[v0 + ln + 1:]))
+    return out
 
 
 def inflations(b, structures=False):
@@ -280,9 +336,10 @@ def mutations(b, rng, per_kind):
             put('enum', b[:off + 8] + struct.pack('>I', val) + b[off + 12:])
     for _ in range(per_kind):
         m = bytearray(b)
-        for _ in range(rng.choice((1, 1, 2, 5))):
+        k = rng.choice((1, 1, 2, 5))
+        for _ in range(k):
             m[rng.randrange(8, len(m))] = rng.randrange(256)
-        put('byteflip', m)
+        put('byteflip' if k == 1 else 'byteflips', m)
     # extra bytes after the message, duplicated item, item removed
     put('trailing', b + b'\x00' + bytes(rng.randrange(256) for _ in range(7)))     # junk that cannot be taken for an item
     if len(inner) > 2:
@@ -364,6 +421,14 @@ def random_chunking(n, rng):
     return sizes
 
 
+# frame kinds made by changing ONE place of a valid request: every item of the original is read by any reader, so a
+# primitive that breaks a rule of its type makes the request undecodable.  (Other kinds - several flips, duplicated or
+# re-tagged items, junk after the message - can put a broken value where PyKMIP legitimately never looks.)
+STRICT_KINDS = ('badutf8', 'badbool', 'badpad', 'byteflip', 'tag', 'type', 'enum', 'version', 'batchcount', 'good', 'valid', 'max', 'maxsmall', 'refused') + \
+    tuple('inflate-t%d+%s' % (t, x) for t in range(1, 11) for x in ('8', '16', 'max')) + \
+    ('len+1', 'len-1', 'len+8', 'len-8', 'len0', 'len2^31', 'len2^32-1', 'trunc@item', 'trunc@value')
+
+
 # ============================================================================================ direct oracle
 def oracle_connection(ctx, spec, obs, calls, meta, expect_frames=None):
     """The property, evaluated on what the connection record shows (no model).  meta[i] (optional) =
@@ -405,15 +470,19 @@ def oracle_connection(ctx, spec, obs, calls, meta, expect_frames=None):
         f['env'] = env
         decodable = obs['parse'][i] is not None
         changed = f['dump_before'] != f['dump_after']
+        # an independent notion of "cannot be decoded".  Frames with several random byte flips may break a value inside a
+        # region PyKMIP never reads (behind an item whose tag was also hit): only the overrun rule is applied to those.
         ov = primitive_overrun(f['frame'])
+        if ov is not None and ov[4] != 'overrun' and not (m.get('kind') or '').split(':')[0] in STRICT_KINDS:
+            ov = None
         if ov is not None:
-            # an independent notion of "cannot be decoded": the value bytes the length field promises are not in the frame
             ok = (len(env['items']) == 1 and env['items'][0]['status'] == 1
                   and env['items'][0]['reason'] == sessdrv.REASON_INVALID_MESSAGE)
             if not ok or f['engine'] is not None or changed:
-                hit({'kind': 'overrunning-item-accepted', 'item_type': ov[1]},
-                    'an item of type %d at offset %d declares %d bytes where its enclosing structure has %d left, yet the request was '
-                    '%s' % (ov[1], ov[0], ov[2], ov[3], 'executed' if f['engine'] is not None else 'not answered with INVALID_MESSAGE'),
+                hit({'kind': 'undecodable-item-accepted', 'rule': ov[4], 'item_type': ov[1]},
+                    'the item of type %d at offset %d (declared length %d, %d bytes left in its structure) breaks the %s rule, yet the '
+                    'request was %s' % (ov[1], ov[0], ov[2], ov[3], ov[4],
+                                        'executed' if f['engine'] is not None else 'not answered with INVALID_MESSAGE'),
                     dict(fx, answer=env, store_changed=changed, engine_entered=f['engine'] is not None))
         if not decodable:
             ok = (len(env['items']) == 1 and env['items'][0]['status'] == 1
@@ -472,7 +541,8 @@ def run(ctx):
         'version 1.0-2.0 it encodes in; (b) grammar-aware corruptions of those (every length field +-1/+-8/0/2^31/2^32-1, '
         'tag and type flips, truncation at item boundaries, batch count != items, unsupported versions, unknown enum values, '
         'byte flips, duplicated/dropped items, deep nesting, raw random; every INNER length field of Register/Create/DeriveKey '
-        'requests raised by +8/+16/to 0x7ffffff8 with outer lengths kept right) in sequences bad*-then-good, each also replayed one '
+        'requests raised by +8/+16/to 0x7ffffff8 with outer lengths kept right; single value bytes of text strings replaced by '
+        'bytes that are not UTF-8, Booleans set to 2, padding set non-zero, structure intact) in sequences bad*-then-good, each also replayed one '
         'frame per connection on a twin engine; (c) every composition of every stream of <= 12 bytes (quick: 8..12 bytes, 1-2 '
         'streams per length) and random chunkings (1..9000-byte chunks) of long streams incl. frames > 4096 bytes; '
         '(d) maximum response size in {absent, 0, 1, size-1, size, size+1, 2^31-1, -1} for five operations, plus sequences '
@@ -522,6 +592,15 @@ def run(ctx):
                and x[1] in (((1, 2), (2, 0)) if quick else kdrv.VERSIONS)]
         inflated = [(kind + ':' + lab, fr) for lab, v, m, b in eff for kind, fr in inflations(b, structures=not quick)]
         ctx.count('mutation.inflate-inner-length', len(inflated))
+        # values that break the rule of their type inside an intact structure (text not UTF-8, Boolean not 0/1, padding not 0)
+        texty = [x for x in valid if x[0] in ('create', 'register_symmetric_key', 'register_opaque_data', 'get', 'get_attributes', 'locate_name',
+                                              'destroy', 'modify_attribute', 'set_attribute', 'activate')
+                 and x[1] in (((1, 0), (1, 2), (2, 0)) if quick else kdrv.VERSIONS)]
+        corrupted = [(kind + ':' + lab, reframe(fr)) for lab, v, m, b in texty for kind, fr in value_corruptions(b)]
+        if quick and len(corrupted) > 900:
+            corrupted = rng.sample(corrupted, 900)
+        ctx.count('mutation.value-rule-broken', len(corrupted))
+        inflated = inflated + corrupted
         small = [('maxsmall:%s' % lab, with_max_size(info, lab, v, m), m)
                  for lab in ('query', 'get', 'locate') for v in ((1, 0), (1, 4), (2, 0)) for m in (1, 64, -1)]
         small_max = {fr: m for _, fr, m in small}
